@@ -244,6 +244,7 @@ theorem us_rejects_uk_text (y m d : Nat) (hm : 1 ≤ m ∧ m ≤ 12) (hd : 12 < 
   rw [hu]
   rcases mkDateChecked_cases (y : Int) (duResolve (d : Int) (m : Int)).1 (duResolve (d : Int) (m : Int)).2 with ⟨t0, h⟩ | h <;> rw [h] <;> rfl
 
+example : Valid 2000 1 13 ∧ isDateSep '.' = true ∧ isDateSep ' ' = true := by decide
 example : String.ofList (pad2 13 ++ '.' :: (pad2 1 ++ '.' :: (pad4 2000 ++ []))) = "13.01.2000" := by decide
 
 /-- the matcher of the model is the `ambiguity` regex of the source (a changed regex breaks this theorem) -/
@@ -352,5 +353,7 @@ theorem ymd_drops_time (t : Int) (h0 : 0 ≤ t) (h1 : t < MAXUS) :
     congr 1; unfold ordOf DAYUS at *; omega
   refine ⟨e, ?_⟩
   rw [e]; have := split_t t; omega
+
+example : dropTime 63083133040000050 = 63083059200000000 := by decide +kernel   -- 2000-01-10T20:30:40.000050 -> 2000-01-10
 
 end Pyg.Props.C04
